@@ -511,8 +511,11 @@ func (s *Store) snapshotActive() map[string]secretState {
 	defer s.active.Unlock()
 	m := make(map[string]secretState)
 	for name, cs := range s.active.m {
+		// A secret with an outstanding handle is never removed (see
+		// applyUpdates), so it must keep being polled even if it is stale.
+		_, pinned := s.active.f[name]
 		m[name] = secretState{
-			expired: s.hasExpired(cs),
+			expired: !pinned && s.hasExpired(cs),
 			version: cs.Secret.Version,
 		}
 	}
